@@ -393,3 +393,30 @@ func b2i(b bool) int {
 //@   requires !c.loweringState.unreachable && len(c.loweringState.values) < 1<<40 && int(c.wasmFunctionBody[c.loweringState.pc+1]) < len(c.globalVariables) && int(c.wasmFunctionBody[c.loweringState.pc+1]) < len(c.globalVariablesTypes)
 //@   ensures[the-global-of-the-immediate-is-pushed] gg("ggIndex") == int(old(c.wasmFunctionBody[c.loweringState.pc+1])) && int(stackAt(c, 0)) == gg("ggRet") && len(c.loweringState.values) == old(len(c.loweringState.values))+1
 //@   nosafety keep-pre
+
+// ---- C04 / C02: an indirect call in compiled code goes only through a populated, type-equal slot of the
+// table: the front end emits, in this order, index >=u length (table-out-of-bounds exit, length loaded from
+// the table instance whose pointer is loaded from the table's slot in the module context), entry == 0
+// (null-pointer exit, entry loaded from base + index*8), type id of the entry != expected type id (type-
+// mismatch exit; expected id loaded at typeIndex*4 from the type-id array of the module context), and calls
+// the executable loaded from that same entry.
+//@ prop C04 C02
+//@ func (c *Compiler) lowerAccessTableWithBoundsCheck(tableIndex uint32, elementOffsetInTable ssa.Value) (elementAddress ssa.Value)
+//@   requires c.ssaBuilder != nil
+//@   ensures[index-checked-against-the-tables-length] ssa.ExitsWith(wazevoapi.ExitCodeTableOutOfBounds) == old(ssa.ExitsWith(wazevoapi.ExitCodeTableOutOfBounds))+1 && ssa.ExitGuardedByCmp(wazevoapi.ExitCodeTableOutOfBounds) && ssa.ExitCmpCond(wazevoapi.ExitCodeTableOutOfBounds) == ssa.IntegerCmpCondUnsignedGreaterThanOrEqual && ssa.ExitCmpX(wazevoapi.ExitCodeTableOutOfBounds) == elementOffsetInTable
+//@   ensures[length-of-the-table-of-that-index] ssa.IsLoaded(ssa.ExitCmpY(wazevoapi.ExitCodeTableOutOfBounds)) && ssa.LoadedAt(ssa.ExitCmpY(wazevoapi.ExitCodeTableOutOfBounds)) == tableInstanceLenOffset && ssa.IsLoaded(ssa.LoadedFrom(ssa.ExitCmpY(wazevoapi.ExitCodeTableOutOfBounds))) && ssa.LoadedFrom(ssa.LoadedFrom(ssa.ExitCmpY(wazevoapi.ExitCodeTableOutOfBounds))) == c.moduleCtxPtrValue && ssa.LoadedAt(ssa.LoadedFrom(ssa.ExitCmpY(wazevoapi.ExitCodeTableOutOfBounds))) == uint64(c.offset.TableOffset(int(tableIndex)).U32())
+//@   ensures[element-address-is-base-plus-index-times-8] gg("lastOp") == int(ssa.OpcodeIadd) && gg("lastRet") == int(elementAddress) && ssa.IsLoaded(ssa.Value(gg("lastV"))) && ssa.LoadedAt(ssa.Value(gg("lastV"))) == tableInstanceBaseAddressOffset && ssa.LoadedFrom(ssa.Value(gg("lastV"))) == ssa.LoadedFrom(ssa.ExitCmpY(wazevoapi.ExitCodeTableOutOfBounds))
+//@   ensures[other-exits-untouched] ssa.ExitsWith(wazevoapi.ExitCodeIndirectCallNullPointer) == old(ssa.ExitsWith(wazevoapi.ExitCodeIndirectCallNullPointer)) && ssa.ExitsWith(wazevoapi.ExitCodeIndirectCallTypeMismatch) == old(ssa.ExitsWith(wazevoapi.ExitCodeIndirectCallTypeMismatch))
+//@   records tblElemAddr = int(elementAddress)
+//@   modifies ghost("*")
+//@   nosafety keep-pre
+
+//@ func (c *Compiler) prepareCallIndirect(typeIndex, tableIndex uint32) (ssa.Value, *wasm.FunctionType, ssa.Values)
+//@   requires c.ssaBuilder != nil && c.m != nil && int(typeIndex) < len(c.m.TypeSection) && len(c.loweringState.values) >= 1 && len(c.loweringState.values)-1 >= len(c.m.TypeSection[typeIndex].Params)
+//@   ensures[table-index-checked] ssa.ExitsWith(wazevoapi.ExitCodeTableOutOfBounds) == old(ssa.ExitsWith(wazevoapi.ExitCodeTableOutOfBounds))+1 && ssa.ExitCmpCond(wazevoapi.ExitCodeTableOutOfBounds) == ssa.IntegerCmpCondUnsignedGreaterThanOrEqual && ssa.ExitCmpX(wazevoapi.ExitCodeTableOutOfBounds) == old(stackAt(c, 0))
+//@   ensures[null-entry-exits] ssa.ExitsWith(wazevoapi.ExitCodeIndirectCallNullPointer) == old(ssa.ExitsWith(wazevoapi.ExitCodeIndirectCallNullPointer))+1 && ssa.ExitGuardedByCmp(wazevoapi.ExitCodeIndirectCallNullPointer) && ssa.ExitCmpCond(wazevoapi.ExitCodeIndirectCallNullPointer) == ssa.IntegerCmpCondEqual && ssa.IsLoaded(ssa.ExitCmpX(wazevoapi.ExitCodeIndirectCallNullPointer)) && ssa.LoadedAt(ssa.ExitCmpX(wazevoapi.ExitCodeIndirectCallNullPointer)) == 0 && int(ssa.LoadedFrom(ssa.ExitCmpX(wazevoapi.ExitCodeIndirectCallNullPointer))) == gg("tblElemAddr") && verif_ghost_map("M:isConst", uint64(ssa.ExitCmpY(wazevoapi.ExitCodeIndirectCallNullPointer))) == 1 && verif_ghost_map("M:constVal", uint64(ssa.ExitCmpY(wazevoapi.ExitCodeIndirectCallNullPointer))) == 0
+//@   ensures[type-mismatch-exits] ssa.ExitsWith(wazevoapi.ExitCodeIndirectCallTypeMismatch) == old(ssa.ExitsWith(wazevoapi.ExitCodeIndirectCallTypeMismatch))+1 && ssa.ExitGuardedByCmp(wazevoapi.ExitCodeIndirectCallTypeMismatch) && ssa.ExitCmpCond(wazevoapi.ExitCodeIndirectCallTypeMismatch) == ssa.IntegerCmpCondNotEqual && ssa.IsLoaded(ssa.ExitCmpX(wazevoapi.ExitCodeIndirectCallTypeMismatch)) && ssa.LoadedAt(ssa.ExitCmpX(wazevoapi.ExitCodeIndirectCallTypeMismatch)) == wazevoapi.FunctionInstanceTypeIDOffset && ssa.LoadedFrom(ssa.ExitCmpX(wazevoapi.ExitCodeIndirectCallTypeMismatch)) == ssa.ExitCmpX(wazevoapi.ExitCodeIndirectCallNullPointer)
+//@   ensures[expected-type-id-of-the-immediate] ssa.IsLoaded(ssa.ExitCmpY(wazevoapi.ExitCodeIndirectCallTypeMismatch)) && ssa.LoadedAt(ssa.ExitCmpY(wazevoapi.ExitCodeIndirectCallTypeMismatch)) == uint64(typeIndex*4) && ssa.IsLoaded(ssa.LoadedFrom(ssa.ExitCmpY(wazevoapi.ExitCodeIndirectCallTypeMismatch))) && ssa.LoadedFrom(ssa.LoadedFrom(ssa.ExitCmpY(wazevoapi.ExitCodeIndirectCallTypeMismatch))) == c.moduleCtxPtrValue && ssa.LoadedAt(ssa.LoadedFrom(ssa.ExitCmpY(wazevoapi.ExitCodeIndirectCallTypeMismatch))) == uint64(c.offset.TypeIDs1stElement.U32())
+//@   ensures[calls-the-executable-of-the-checked-entry] ssa.IsLoaded(r0) && ssa.LoadedAt(r0) == wazevoapi.FunctionInstanceExecutableOffset && ssa.LoadedFrom(r0) == ssa.ExitCmpX(wazevoapi.ExitCodeIndirectCallNullPointer)
+//@   modifies ghost("*"), c.loweringState.values
+//@   nosafety keep-pre
